@@ -164,11 +164,33 @@ def r_spawn_fresh(e, R):
     okc = False
     for t in fin:
         for s in t.finalbody:
-            if isinstance(s, ast.For) and isinstance(s.iter, (ast.Tuple, ast.List)) and {norm(x) for x in s.iter.elts} == child \
+            if isinstance(s, ast.For) and isinstance(s.iter, (ast.Tuple, ast.List)) and {norm(x) for x in s.iter.elts} >= child \
                     and any(isinstance(x, ast.Call) and norm(x.func) == "os.close" for x in ast.walk(s)):
                 okc = all(any(x is p for x in ast.walk(t)) for p in pipes)
     R.check(okc, "R-SPAWN-FRESH", "_launch: the child ends are closed in the parent in a finally clause covering the pipes' creation", la.short, "finally: os.close(child_r/child_w)",
             "the parent keeps the child ends open: the sentinel never fires and descriptors leak per worker", e.loc(la, la.node))
+    # ... and the parent's own write end of the payload pipe does not survive a failed launch: from the creation of that pipe, every
+    # path that leaves _launch with an exception (fork_exec refusing the environment / EAGAIN / EMFILE, an interrupt) passes the
+    # hand-over of the descriptor to a file object (which closes it) or a close of it (directly, or in a clean-up loop naming it)
+    if parent_w is not None:
+        def releases(n):
+            if any(norm(c.func) in ("os.fdopen", "open") and c.args and isinstance(c.args[0], ast.Name) and c.args[0].id == parent_w for c in calls_in(n)):
+                return True
+            if any(norm(c.func) == "os.close" and c.args and isinstance(c.args[0], ast.Name) and c.args[0].id == parent_w for c in calls_in(n)):
+                return True
+            if n.kind == "for_iter" and isinstance(n.ast, ast.For) and isinstance(n.ast.iter, (ast.Tuple, ast.List)) and isinstance(n.ast.target, ast.Name) \
+                    and any(isinstance(x, ast.Name) and x.id == parent_w for x in n.ast.iter.elts) \
+                    and any(isinstance(x, ast.Call) and norm(x.func) == "os.close" and x.args and isinstance(x.args[0], ast.Name) and x.args[0].id == n.ast.target.id
+                            for s_ in n.ast.body for x in ast.walk(s_)):
+                return True
+            return False
+        made = [n for n in g.nodes if n.kind == "stmt" and n.ast in pipes and any(isinstance(x, ast.Name) and x.id == parent_w for x in ast.walk(n.ast.targets[0]))]
+        for mn in made:
+            esc = g.find_path(mn, lambda n: n is g.raise_exit, avoid=releases, use_exc=True, start_labels=[None])
+            R.check(esc is None, "R-SPAWN-FRESH", f"_launch: the parent's write end `{parent_w}` of the payload pipe is released when the launch fails", la.short,
+                    f"os.fdopen({parent_w}) / os.close({parent_w}) on every exceptional exit", f"when fork_exec (or anything before the payload is written) raises -- an "
+                    f"`env=` value with an embedded NUL, EAGAIN, EMFILE -- `_launch` closes the child ends and finalises the sentinel but never closes `{parent_w}`: "
+                    "one descriptor leaks in the parent per failed spawn attempt", e.loc(la, mn.ast), g.fmt_path(esc) if esc else None)
     # the payload pipe's read end is what the child is told to read
     okpipe = any(isinstance(n, ast.Call) and makes_inheritable(e, la, n) and n.args and isinstance(n.args[0], ast.Name) and n.args[0].id in child
                  and ends.get(n.args[0].id) == "r" for n in func_nodes(la))
@@ -556,6 +578,10 @@ def depth_check_func(e):
                 if any(isinstance(x, ast.Raise) for x in func_nodes(cf)) and any(
                         isinstance(x, ast.Name) and x.id == "MAX_DEPTH" for x in func_nodes(cf)):
                     cands.add(q)
+    if not cands:
+        # not called from the constructor (any more): the function of the executor module that compares with MAX_DEPTH and raises
+        cands = {q for q, cf in e.prog.funcs.items() if cf.module.name == init.module.name and cf.kind == "def" and cf.parent is None and cf.cls is None
+                 and any(isinstance(x, ast.Raise) for x in func_nodes(cf)) and any(isinstance(x, ast.Name) and x.id == "MAX_DEPTH" for x in func_nodes(cf))}
     if len(cands) != 1:
         raise AnalysisError(f"depth check called from the constructor not unique: {sorted(cands)}")
     return e.prog.funcs[cands.pop()]
@@ -1013,17 +1039,22 @@ def r_ctx_name(e, R):
                 return tbl[type(op)]()
         raise AnalysisError(f"get_context: `{norm(x)[:60]}` not interpretable while resolving the start method")
 
+    def is_ctx_call(x):
+        # the request handed to multiprocessing: <...>get_context(<name>)
+        return isinstance(x, ast.Call) and len(x.args) == 1 and not x.keywords and norm(x.func).split(".")[-1].endswith("get_context") \
+            and f.qualname not in e.callees_of(x)
+
     def run(stmts, env):
         for s in stmts:
+            if isinstance(s, (ast.Assign, ast.Return, ast.Expr)) and is_ctx_call(s.value):
+                env["\0result"] = ev(s.value.args[0], env)
+                raise _Done()
             if isinstance(s, ast.Assign) and len(s.targets) == 1 and isinstance(s.targets[0], ast.Name):
                 env[s.targets[0].id] = ev(s.value, env)
             elif isinstance(s, ast.If):
                 run(s.body if ev(s.test, env) else s.orelse, env)
             elif isinstance(s, ast.Try):
                 run(s.body, env)
-            elif isinstance(s, ast.Return) and isinstance(s.value, ast.Call) and s.value.args:
-                env["\0result"] = ev(s.value.args[0], env)
-                raise _Done()
             elif isinstance(s, (ast.Expr, ast.Pass)):
                 continue
             else:
